@@ -1075,6 +1075,26 @@ class Interp(object):
             self.err(node, 'unknown node class %s' % cls)
         params, attrmap = self.am.init_model(cls)
         names = [p[0] for p in params]
+        # Cls(*p[i:j]): the starred slice of the production is expanded
+        args = []
+        for a in node.args:
+            if isinstance(a, ast.Starred):
+                if not (isinstance(a.value, ast.Subscript) and self.is_p(
+                        a.value.value, st) and isinstance(
+                        a.value.slice, ast.Slice)):
+                    self.err(node, 'unsupported starred argument')
+                sl = a.value.slice
+                lo = self.const_int(sl.lower, st) if sl.lower else None
+                hi = self.const_int(sl.upper, st) if sl.upper else None
+                for i in list(range(self.n))[lo:hi]:
+                    args.append(ast.copy_location(ast.Subscript(
+                        value=a.value.value, slice=ast.Constant(value=i),
+                        ctx=ast.Load()), a))
+            else:
+                args.append(a)
+        node = ast.copy_location(ast.Call(
+            func=node.func, args=args, keywords=node.keywords), node)
+        ast.fix_missing_locations(node)
         exprs = list(node.args) + [kw.value for kw in node.keywords]
         if any(kw.arg is None for kw in node.keywords):
             self.err(node, '**kwargs in constructor call')
